@@ -49,17 +49,10 @@ theorem isWs_isSpTab {c : Char} (h : isWs c = false) : isSpTab c = false := by
   | false => rfl
   | true =>
     have : c = ' ' ∨ c = '\t' := by simpa [isSpTab] using hs
-    rcases this with rfl | rfl <;> simp [isWs] at h
+    rcases this with rfl | rfl <;> revert h <;> decide
 
-theorem isWs_cases {c : Char} (h : isWs c = true) :
-    c = ' ' ∨ c = '\t' ∨ c = '\n' ∨ c = '\r' ∨ c = '\x0b' ∨ c = '\x0c' ∨ c = '\x1c' ∨ c = '\x1d' ∨ c = '\x1e' ∨ c = '\x1f' := by
-  simpa [isWs, or_assoc] using h
-
-theorem isWs_of_attrChar {c : Char} (h : isAttrChar c = true) : isWs c = false := by
-  cases hw : isWs c with
-  | false => rfl
-  | true =>
-    rcases isWs_cases hw with rfl | rfl | rfl | rfl | rfl | rfl | rfl | rfl | rfl | rfl <;> revert h <;> decide
+theorem isWs_of_attrChar {c : Char} (h : isAttrChar c = true) : isWs c = false :=
+  isWs_false_of (p := isAttrChar) (by decide) h
 
 theorem isAttrChar_of_nameChar {c : Char} (h : isNameChar c = true) : isAttrChar c = true := by
   simp [isAttrChar, h]
